@@ -23,6 +23,7 @@ from collections import Counter
 
 from .. import common, eqcases, eqterm
 from ..extract import eqtable
+from . import eqfam
 
 THEOREMS = [
     "Pt.EqM.encFull_prefix_free", "Pt.EqM.enc_congr", "Pt.EqM.enc_injective",
@@ -330,7 +331,9 @@ def correspondence(ctx, t, seed, n_graphs, n_mut):
 
 
 def cross_process(ctx, seed, n, pickles, keys, node_keys, hash_seeds):
-    outs = eqcases.run_children(ctx, seed, n, pickles, hash_seeds, tag="c18")
+    outs = eqcases.run_children(ctx, seed, n, pickles, hash_seeds, tag="c18", families=eqfam.FAMILIES,
+                                pickle_families=())
+    eqfam.judge_children(ctx, outs, "key")
     ncase = ndis = 0
     for ch in outs:
         hs = ch["hash_seed"]
@@ -404,6 +407,8 @@ def run(ctx: common.Ctx):
     n_x = 400 if ctx.thorough else 60
     seeds = [1, 2, 3, 4, 5, 6, 7, 12345] if ctx.thorough else [1, 7, 4242]
     cross_process(ctx, ctx.seed, min(n_x, n_graphs), pickles, keys, node_keys, seeds)
+    eqfam.einsum_renamings(ctx, "key")
+    eqfam.constants(ctx, "key")
     ctx.broken = sorted(set(ctx.broken))[:40]
 
 
